@@ -142,6 +142,11 @@ func (x *ctx) callStatic(st *state, fr *frame, callee *ssa.Function, bind []val,
 		return x.ret1(st, scalar(term{implies(args[0].t.s, args[1].t.s), sBool}))
 	case name == "same" && len(args) == 2:
 		return x.ret1(st, scalar(term{x.valEq(args[0], args[1]), sBool}))
+	case name == "mutexHeld" && len(args) == 1 && x.spec > 0:
+		// specification access to the lock flag of a sync.Mutex (sequential model: held or not)
+		l := x.recvLoc(st, args[0], callee.Signature.Params().At(0).Type())
+		rd, _ := x.rw(st, l, sBool)
+		return x.ret1(st, scalar(rd()))
 	case name == "iff" && len(args) == 2:
 		return x.ret1(st, scalar(term{eq(args[0].t, args[1].t), sBool}))
 	case strings.HasPrefix(name, "ghost_"):
@@ -1899,6 +1904,7 @@ func (x *ctx) instantiateUniv(st *state, k term) {
 func (x *ctx) localByName(st *state, fr *frame, at *ssa.BasicBlock, name string) (val, bool) {
 	var best ssa.Value
 	var isAddr bool
+	var bestBlk *ssa.BasicBlock
 	// a variable captured by the closure being executed: its content in st (a debug reference to a value loaded earlier
 	// would be stale, and would not follow the state the clause level is evaluated in)
 	for _, fv := range fr.fn.FreeVars {
@@ -1925,7 +1931,31 @@ func (x *ctx) localByName(st *state, fr *frame, at *ssa.BasicBlock, name string)
 				}
 				if blk == at || blk.Dominates(at) {
 					best, isAddr = d.X, d.IsAddr
+					bestBlk = blk
 				}
+			}
+		}
+	}
+	// a loop-carried variable: the phi of that name in the innermost dominating block that the last debug reference
+	// does not come after (an assignment inside the loop is referenced in a block that does not dominate the exit, so
+	// without this the variable would read as the value it was declared with)
+	for _, blk := range fr.fn.Blocks {
+		if !(blk == at || blk.Dominates(at)) {
+			continue
+		}
+		for _, in := range blk.Instrs {
+			ph, ok := in.(*ssa.Phi)
+			if !ok {
+				break
+			}
+			if ph.Comment != name {
+				continue
+			}
+			if _, bound := fr.regs[ph]; !bound {
+				continue
+			}
+			if bestBlk == nil || (bestBlk != blk && bestBlk.Dominates(blk)) {
+				best, isAddr, bestBlk = ph, false, blk
 			}
 		}
 	}
